@@ -298,6 +298,7 @@ def run_check(spec, prop, tier, replay, t0, quick, thorough, level, rule, assump
         known_ids = sorted(f.id for f in findings)
         rdir = os.path.join(vlib.VERIF, "replays", prop)
         known_files = set()
+        jobs = []            # (kind, finding or file name, path, tag)
         for f in findings:
             if f.replay == "-":
                 continue
@@ -306,12 +307,7 @@ def run_check(spec, prop, tier, replay, t0, quick, thorough, level, rule, assump
             if not os.path.exists(path):
                 out.notes.append("known finding %s: replay file missing" % f.id)
                 continue
-            _, v = _replay_file(spec, prop, wd, binary, bindir, path, "k_" + f.id)
-            if v["status"] == "fail":
-                print("KNOWN-FINDING: property=%s %s [%s]" % (prop, f.text, f.id), flush=True)
-                out.known_printed.append(f.id)
-            else:
-                out.notes.append("known finding %s no longer reproduces (replay verdict %s)" % (f.id, v["status"]))
+            jobs.append(("known", f, path, "k_" + f.id))
         nreg = 0
         if os.path.isdir(rdir):
             for fn in sorted(os.listdir(rdir)):
@@ -319,9 +315,20 @@ def run_check(spec, prop, tier, replay, t0, quick, thorough, level, rule, assump
                 if not fn.endswith(".case") or path in known_files or fn.startswith("violation_") or fn.startswith("known_"):
                     continue
                 nreg += 1
-                _, v = _replay_file(spec, prop, wd, binary, bindir, path, "g%d" % nreg, known_ids)
-                if v["status"] != "ok":
-                    out.violations.append((path, "regression input fails: " + v.get("what", "")[:600]))
+                jobs.append(("regression", fn, path, "g%d" % nreg))
+        # the stored inputs are independent of each other (own scratch and cache directories): replay them concurrently
+        from concurrent.futures import ThreadPoolExecutor
+        with ThreadPoolExecutor(max_workers=8) as ex:
+            verdicts = list(ex.map(lambda j: _replay_file(spec, prop, wd, binary, bindir, j[2], j[3], known_ids)[1], jobs))
+        for (kind, what, path, _), v in zip(jobs, verdicts):
+            if kind == "known":
+                if v["status"] == "fail":
+                    print("KNOWN-FINDING: property=%s %s [%s]" % (prop, what.text, what.id), flush=True)
+                    out.known_printed.append(what.id)
+                else:
+                    out.notes.append("known finding %s no longer reproduces (replay verdict %s)" % (what.id, v["status"]))
+            elif v["status"] != "ok":
+                out.violations.append((path, "regression input fails: " + v.get("what", "")[:600]))
         out.extra["regression_replays"] = nreg
 
         total = quick if tier == "quick" else thorough
